@@ -32,11 +32,21 @@ func zeroResults(m *Machine, fn *ssa.Function, args []Value) Value {
 
 func init() {
 	intrinsics = map[string]intrinsic{
-		rtPkg + ".U64":  func(m *Machine, _ *Thread, _ *Frame, a []Value, _ ssa.Value) Value { return m.fresh(m.litArg(a[0], "name"), SBV(64)) },
-		rtPkg + ".U32":  func(m *Machine, _ *Thread, _ *Frame, a []Value, _ ssa.Value) Value { return m.fresh(m.litArg(a[0], "name"), SBV(32)) },
-		rtPkg + ".U8":   func(m *Machine, _ *Thread, _ *Frame, a []Value, _ ssa.Value) Value { return m.fresh(m.litArg(a[0], "name"), SBV(8)) },
-		rtPkg + ".Int":  func(m *Machine, _ *Thread, _ *Frame, a []Value, _ ssa.Value) Value { return m.fresh(m.litArg(a[0], "name"), SBV(64)) },
-		rtPkg + ".Bool": func(m *Machine, _ *Thread, _ *Frame, a []Value, _ ssa.Value) Value { return m.fresh(m.litArg(a[0], "name"), SBool) },
+		rtPkg + ".U64": func(m *Machine, _ *Thread, _ *Frame, a []Value, _ ssa.Value) Value {
+			return m.fresh(m.litArg(a[0], "name"), SBV(64))
+		},
+		rtPkg + ".U32": func(m *Machine, _ *Thread, _ *Frame, a []Value, _ ssa.Value) Value {
+			return m.fresh(m.litArg(a[0], "name"), SBV(32))
+		},
+		rtPkg + ".U8": func(m *Machine, _ *Thread, _ *Frame, a []Value, _ ssa.Value) Value {
+			return m.fresh(m.litArg(a[0], "name"), SBV(8))
+		},
+		rtPkg + ".Int": func(m *Machine, _ *Thread, _ *Frame, a []Value, _ ssa.Value) Value {
+			return m.fresh(m.litArg(a[0], "name"), SBV(64))
+		},
+		rtPkg + ".Bool": func(m *Machine, _ *Thread, _ *Frame, a []Value, _ ssa.Value) Value {
+			return m.fresh(m.litArg(a[0], "name"), SBool)
+		},
 		rtPkg + ".Bytes": func(m *Machine, _ *Thread, _ *Frame, a []Value, _ ssa.Value) Value {
 			return ByteSlice{T: m.fresh(m.litArg(a[0], "name"), m.bytesSort())}
 		},
@@ -164,6 +174,10 @@ func init() {
 			}
 			panic(m.unsupported("Last(%q): no such symbolic variable on this path", name))
 		},
+		rtPkg + ".Prefer": func(m *Machine, _ *Thread, _ *Frame, a []Value, _ ssa.Value) Value {
+			m.prefer = append(m.prefer, a[0].(*Term))
+			return nil
+		},
 		rtPkg + ".AlgebraDomain": func(m *Machine, _ *Thread, _ *Frame, a []Value, _ ssa.Value) Value {
 			return BoolC(m.Domain == DomAlgebra)
 		},
@@ -267,6 +281,27 @@ func init() {
 			}
 			return ByteArr{T: App("uf.sha256", SString, x), N: 32}
 		},
+		"bytes.LastIndex": func(m *Machine, _ *Thread, _ *Frame, a []Value, _ ssa.Value) Value {
+			return m.weakUF("bytes.LastIndex", SBV(64), a)
+		},
+		"bytes.Index": func(m *Machine, _ *Thread, _ *Frame, a []Value, _ ssa.Value) Value {
+			return m.weakUF("bytes.Index", SBV(64), a)
+		},
+		"bytes.Count": func(m *Machine, _ *Thread, _ *Frame, a []Value, _ ssa.Value) Value {
+			r := m.weakUF("bytes.Count", SBV(64), a)
+			m.assume(BVCmp("bvslt", r, BVC(64, 1<<31)))
+			m.assume(BVCmp("bvsge", r, BVC(64, 0)))
+			return r
+		},
+		"bytes.Contains": func(m *Machine, _ *Thread, _ *Frame, a []Value, _ ssa.Value) Value {
+			return m.weakUF("bytes.Contains", SBool, a)
+		},
+		"bytes.HasPrefix": func(m *Machine, _ *Thread, _ *Frame, a []Value, _ ssa.Value) Value {
+			return m.weakUF("bytes.HasPrefix", SBool, a)
+		},
+		"bytes.HasSuffix": func(m *Machine, _ *Thread, _ *Frame, a []Value, _ ssa.Value) Value {
+			return m.weakUF("bytes.HasSuffix", SBool, a)
+		},
 		"bytes.Equal": func(m *Machine, _ *Thread, _ *Frame, a []Value, _ ssa.Value) Value { return m.bytesEqual(a[0], a[1]) },
 		"math/bits.Len64": func(m *Machine, _ *Thread, _ *Frame, a []Value, _ ssa.Value) Value {
 			return BVLen(a[0].(*Term))
@@ -308,6 +343,22 @@ func init() {
 			return m.formatInt(a[0].(*Term), true, 0)
 		},
 	}
+}
+
+// weakUF stands in for a byte-scanning library function applied to opaque (algebra) bytes: an
+// uninterpreted function of its arguments. Sound for "holds", but a violation found on such a
+// path is only reported after the native replay confirmed it.
+func (m *Machine) weakUF(name string, res Sort, args []Value) *Term {
+	if m.Domain != DomAlgebra {
+		panic(m.unsupported("%s outside the algebra domain has no contract yet", name))
+	}
+	ts := make([]*Term, len(args))
+	for i, a := range args {
+		ts[i] = m.termOf(a)
+	}
+	m.weak = appendUniq(m.weak, []string{name}, 20)
+	m.note("byte scan of opaque bytes modelled as uninterpreted function: " + name)
+	return App("uf.weak."+name, res, ts...)
 }
 
 func (m *Machine) opaqueString(tag string) *Term {
